@@ -225,12 +225,60 @@ def c12(res, thorough):
 
 
 def c21(res, thorough):
-    oracle_check(res, thorough, "C21", "freelist", ["CachedFreeList's thread-id hash is replaced by a per-case slot choice (replayability)", "get() returning nullptr while a deferred put is in flight is outside the property (FreeList is a relaxed bag)"],
-                 threads=4, ops=6)
+    base_cov(res, ["memory orders", "back-off timing",
+                   "Algo/FreeList (reference-counted free list, 32-bit word arithmetic exact, count below 2^31) and Algo/TaggedFreeList (tag + pointer double-width CAS, unbounded tag): Lean machines with node reuse, "
+                   "stale pointers and counted references; no-double-hand-out, conservation, quiescent completeness and the tag / reference lemmas are theorems over all schedules, any number of threads and nodes; "
+                   "both machines are tied by trace conformance (every atomic operation on head, m_freeListRefs and m_freeListNext, values included, and every result)",
+                   "CachedFreeList: no model; decided by the client oracles on explored schedules. Its thread-id hash is replaced by a per-case slot choice (replayability)",
+                   "get() returning nullptr while a deferred put is in flight is outside the property (FreeList is a relaxed bag)"],
+             partial=["CachedFreeList as a theorem: not proved"])
+    lean_step(res, ["CdsVerif.Props.C21", "CdsVerif.Props.C21FreeLists"], thorough)
+    for v, m in (("freelist", "freelist"), ("tagged", "tagged")):
+        tie_A(res, "freelist", m, [{"args": ["--mode", "mixed", "--threads", "4", "--ops", "5", "--variant", v], "cases": 10000 if thorough else 1200},
+                                   {"args": ["--mode", "enum2" if thorough else "enum1", "--threads", "2", "--ops", "3", "--variant", v], "cases": 8 if thorough else 3}], pre=steps.freelist_pre)
+    runs = hist_runs(thorough, 4, 6, (10, 20), (3000, 40000))
+    tie_H(res, "freelist", runs, judged=False)
 
 
 def c24(res, thorough):
     oracle_check(res, thorough, "C24", "pool", ["bounded pool: programs keep outstanding allocations within capacity by construction, the *x variants accept bad_alloc"], threads=4, ops=6)
+
+
+def c18(res, thorough):
+    base_cov(res, ["memory orders", "back-off timing",
+                   "the dump functions of the snap client read the containers' private fields (-fno-access-control) at a quiescent point; they are harness code, cross-checked by comparing the dumped content with the container's own traversal (ITER) and with the history",
+                   "Base/Snapshot: well-formedness predicates and abstraction functions; Props/C18: well-formed => traversal exact / strictly increasing / duplicate-free, every skip-list level an ordered sub-list of the level below, "
+                   "search-tree order for EllenBinTree and Bronson, strict AVL (stored height = structural height, balance) for Bronson, split order for SplitListSet",
+                   "that every quiescent state reached by the real code is well-formed is decided on explored schedules (the dump of each final state is judged by the Lean functions), not proved about algorithm models",
+                   "covered variants: MichaelList, LazyList, IterableList (HP), SkipListSet (HP, RCU gpi), EllenBinTreeSet (HP), BronsonAVLTreeMap (RCU gpi, relaxed insert), SplitListSet over MichaelList (HP, with and without colliding hashes), each with and without item counter; "
+                   "DHP and the other RCU flavours share the code paths and are not dumped"],
+             partial=["'every reachable quiescent state is well-formed' as a theorem: not proved (explored schedules only)"])
+    res.cov["rule"] = ("cases = (client program, schedule) pairs; after each program the main thread dumps the structure; distinct = distinct (variant, atomic-operation sequence hash); "
+                       "non-trivial = contains a failed CAS or a back-off; sequential runs (one thread) are included as a separate run")
+    lean_step(res, "CdsVerif.Props.C18", thorough)
+    n = 60000 if thorough else 6000
+    steps.tie_S(res, "snap", [{"args": ["--mode", "mixed", "--threads", "3", "--ops", "5"], "cases": n},
+                              {"args": ["--mode", "mixed", "--threads", "4", "--ops", "4"], "cases": n // 2},
+                              {"args": ["--mode", "seq", "--threads", "1", "--ops", "14"], "cases": n},
+                              {"args": ["--mode", "enum2" if thorough else "enum1", "--threads", "2", "--ops", "3"], "cases": 34 if thorough else 17}])
+    # the leftovers that matter are rare (a marked node left linked, a stale height): dense runs on the variants that can have them
+    for v in ("michael_hp", "michael_hp_cnt", "split_michael_hp", "bronson_gpi", "bronson_gpi_cnt", "bronson_gpi_relaxed", "skip_hp", "lazy_hp"):
+        steps.tie_S(res, "snap", [{"args": ["--mode", "mixed", "--threads", "3", "--ops", "5", "--variant", v], "cases": 40000 if thorough else 5000}], label="snap-dense")
+
+
+def c19(res, thorough):
+    base_cov(res, ["memory orders", "back-off timing",
+                   "no algorithm model of IterableList / FeldmanHashSet iteration yet: the clauses are decided by a relational oracle evaluated by the client on the real execution "
+                   "(every element with a successful add completed before the iteration began and no removal of its key invoked before the iteration ended counts as present throughout; "
+                   "disposed flag read when the iterator arrives and before it leaves, with two scheduling points in between; erase_at results judged against the removals logged for the element)",
+                   "one iterating thread (thread 0) and 2-3 updating threads; Feldman with head bits 4 / array bits 2 and hashes that share prefixes so that array nodes split under the iterator",
+                   "HP for all variants, DHP for the intrusive IterableList; the RCU Feldman iterators received the same fix but are not driven"],
+             partial=["the property as a theorem about an iterator model over all schedules: not proved; decided on explored schedules"])
+    lean_step(res, "CdsVerif.Props.C19", thorough)
+    n = 40000 if thorough else 4000
+    tie_H(res, "iter", [{"args": ["--mode", "mixed", "--threads", "3", "--ops", "4"], "cases": n},
+                        {"args": ["--mode", "mixed", "--threads", "4", "--ops", "4"], "cases": n // 2},
+                        {"args": ["--mode", "enum2" if thorough else "enum1", "--threads", "2", "--ops", "3"], "cases": 16 if thorough else 8}], judged=False)
 
 
 def c20(res, thorough):
@@ -240,7 +288,9 @@ def c20(res, thorough):
     res.cov["rule"] = ("single-threaded operation sequences (one scheduled thread, 10-14 operations, key space 2-8, colliding hashes) on every variant of every client, judged against the STRICT sequential "
                        "specification (Spec.map / fifo / bfifo / lifo / deque / maxpq) by the verified checker; distinct = distinct (variant, program); non-trivial = every case (each has at least one failing and one succeeding operation is not required)")
     lean_step(res, "CdsVerif.Props.C20", thorough)
-    n = 20000 if thorough else 2500
+    # sequential cases are cheap (about 2500 per second): many per variant, so that rare shapes are reached
+    # (e.g. Bronson's update(key, f, false) on a routing node needs insert x3 / erase of the two-child node / update)
+    n = 200000 if thorough else 24000
     for client in ("stack", "queue", "vyukov", "deque", "pqueue", "list", "hashset", "tree", "striped"):
         tie_H(res, client, [{"args": ["--mode", "seq", "--threads", "1", "--ops", "12"], "cases": n}], ignore_oracle=FC_ORACLE)
     res.cov["distinct_nontrivial"] = res.cov.get("distinct_traces", 0)
@@ -325,13 +375,17 @@ def c25(res, thorough):
 
 
 def c22(res, thorough):
-    base_cov(res, ["memory orders of the lock word", "reentrant_spin_lock, pool_monitor, injecting_monitor and lock_array have no atomic-step model yet: decided by the history tie and the client's occupancy / pool oracles only",
-                   "back-off timing"],
-             partial=["reentrant release-by-last-unlock, pool_monitor lock return/uniqueness: oracle-checked on explored schedules, not yet theorems"])
-    lean_step(res, "CdsVerif.Props.C22", thorough)
+    base_cov(res, ["memory orders of the lock word", "back-off timing",
+                   "Algo/Spin (spin lock) and Algo/ReentrantSpin (owner + depth) are Lean machines proved for all schedules (mutual exclusion, lock word, release only by the last unlock, other threads excluded) and tied by trace conformance",
+                   "Algo/PoolMonitor (refspin word, lazy lock attach/detach, lock pool as FIFO of ids): Lean machine proved for all schedules, any pool capacity (mutual exclusion, lock uniqueness, returned only when unused, "
+                   "refcount counts users, spin-bit exclusion); hand model tied through the client's occupancy / pool oracles and histories, not yet by trace replay (the pool's own operations are not model events)",
+                   "injecting_monitor and lock_array: no atomic-step model: decided by the history tie and the client's occupancy oracles only"],
+             partial=["pool_monitor trace conformance: not wired", "injecting_monitor / lock_array as theorems: not proved"])
+    lean_step(res, ["CdsVerif.Props.C22", "CdsVerif.Props.C22Monitors"], thorough)
     n = 20000 if thorough else 2000
-    tie_A(res, "locks", "spin", [{"args": ["--mode", "mixed", "--threads", "4", "--ops", "5", "--variant", "spin"], "cases": n // 2},
-                                 {"args": ["--mode", "enum2" if thorough else "enum1", "--threads", "2", "--ops", "3", "--variant", "spin"], "cases": 20 if thorough else 8}])
+    for v, m in (("spin", "spin"), ("reentrant", "reentrant")):
+        tie_A(res, "locks", m, [{"args": ["--mode", "mixed", "--threads", "4", "--ops", "5", "--variant", v], "cases": n // 2},
+                                {"args": ["--mode", "enum2" if thorough else "enum1", "--threads", "2", "--ops", "3", "--variant", v], "cases": 20 if thorough else 8}])
     tie_H(res, "locks", [{"args": ["--mode", "mixed", "--threads", "4", "--ops", "5"], "cases": n},
                          {"args": ["--mode", "enum2" if thorough else "enum1", "--threads", "2", "--ops", "3"], "cases": 25 if thorough else 10}])
 
@@ -400,7 +454,7 @@ TABLE = {
     "C05": ("proof", c05),
     "C08": ("exploration", c08),
     "C12": ("proof", c12),
-    "C21": ("exploration", c21),
+    "C21": ("proof", c21),
     "C24": ("exploration", c24),
     "C13": ("translation_validation", c13),
     "C14": ("translation_validation", c14),
@@ -411,7 +465,7 @@ TABLE = {
     "C03": ("translation_validation", c03),
     "C23": ("translation_validation", c23),
     "C06": ("translation_validation", c06),
-    "C07": ("translation_validation", c07),
+    "C07": ("proof", c07),
     "C10": ("translation_validation", c10),
     "C11": ("translation_validation", c11),
     "C25": ("proof", c25),
@@ -420,6 +474,8 @@ TABLE = {
     "C27": ("proof", c27),
     "C28": ("proof", c28),
     "C09": ("translation_validation", c09),
+    "C18": ("translation_validation", c18),
+    "C19": ("exploration", c19),
 }
 
 
